@@ -311,8 +311,8 @@ def _explore(out, tier, seed, facts, replay):
                         out.violation(("zero-variance-rounding:%s" if rounding_ else "undefined-gives-number:%s") % c, "%s(obs=%r, fcst=%r, agg=%s) = %r where the definition is undefined"
                                       % (c, o, f, use, got1), {"metric": c, "obs": o, "fcst": f, "agg": use})
             elif math.isnan(got1) or not close(got1, want, 1e-9):
-                if math.isnan(got1) and abs(want) > 1e12:
-                    continue
+                if abs(want) > 1e12 and (math.isnan(got1) or abs(got1) > 1e12):
+                    continue          # a denominator that is zero only up to rounding: both numbers are noise (seed 2 found Dmb = -1.1e15 vs -1.5e15)
                 # a root taken AFTER the aggregation magnifies the aggregate's rounding error (std of three equal cubes is 7e-18, its
                 # cube root 2e-6): such scores are compared before the root
                 inv_ = {"Cmae": lambda x: x ** 3, "Rmse": lambda x: x * x, "Rmsf": lambda x: math.log(x) ** 2 if x > 0 else float("nan")}.get(c)
